@@ -56,6 +56,20 @@ DOCS = ['/// a documented item\n', '/** block doc */\n', '#[doc = "attribute doc
 FOREIGN = ['#[allow(dead_code)]\n', '#[cfg_attr(not(any()), allow(unused))]\n', '#[allow(clippy::all, unused)]\n', '', '']
 RAW_NAMES = ['r#type', 'r#match', 'r#loop']
 
+def stack_attr(rng, attr):
+    """the same difference items spread over several stacked #[difference(..)] attributes (every one of them counts, in any order), or a
+    harmless second attribute (skip_setter only concerns generated setters) stacked before / after the first"""
+    import re as _re
+    m = _re.match(r'#\[difference\((.*)\)\](\s*)$', attr, _re.S)
+    if not m or rng.random() >= 0.3: return attr
+    items = [x.strip() for x in m.group(1).split(',') if x.strip()]
+    tail = m.group(2)
+    if len(items) >= 2:
+        return ''.join(f'#[difference({it})]{tail}' for it in items)
+    if not items or 'skip_setter' in items[0]: return attr
+    extra = f'#[difference(skip_setter)]{tail}'
+    return (extra + attr) if rng.random() < 0.5 else (attr + extra)
+
 def gen_struct(rng, idx, allow_nested=True):
     """returns (name, source text incl. test fn, feature list)"""
     feats = []
@@ -73,11 +87,12 @@ def gen_struct(rng, idx, allow_nested=True):
     nested_src = ''
     all_skipped = True
     for i in range(nf):
-        fname = f"f{i}"
-        if rng.random() < 0.12: fname = RAW_NAMES[i % 3]; feats.append('raw_ident_field')
-        if fname in [f[0] for f in fields]: fname = f"f{i}"
         kind = rng.choice(['plain', 'plain', 'plain', 'skip', 'recurse', 'ordered', 'unordered', 'map', 'plainopt'])
         if kind == 'recurse' and not allow_nested: kind = 'plain'
+        fname = f"f{i}"
+        # raw identifiers: more often where the field name is spliced into composed identifiers (aliases and `_full` variants of recurse fields)
+        if rng.random() < (0.4 if kind == 'recurse' else 0.12): fname = RAW_NAMES[i % 3]; feats.append('raw_ident_field' + ('_recurse' if kind == 'recurse' else ''))
+        if fname in [f[0] for f in fields]: fname = f"f{i}"
         acc = f"{fname}"
         attr = ''
         if kind in ('plain', 'plainopt'):
@@ -119,6 +134,8 @@ def gen_struct(rng, idx, allow_nested=True):
                                '#[difference(map_equality = "key_only", collection_strategy = "unordered_map_like")]']) + '\n    '
             checks.append(f"        if r.{acc} != b.{acc} {{ return Err(format!(\"map field {fname}: {{:?}} != {{:?}}\", r.{acc}, b.{acc})); }}")
             feats.append('map'); all_skipped = False
+        attr2 = stack_attr(rng, attr)
+        if attr2 != attr: attr = attr2; feats.append('stacked_difference_attributes')
         vis = rng.choice(['', 'pub ', 'pub(crate) ', 'pub ', 'pub(in crate) ', 'pub(self) ', 'pub(super) '])
         doc = rng.choice(DOCS).replace(chr(10), chr(10) + '    ') if rng.random() < 0.3 else ''
         foreign = rng.choice(FOREIGN).replace(chr(10), chr(10) + '    ') if rng.random() < 0.2 else ''
